@@ -431,6 +431,14 @@ def replay_known(ctx, k):
             lists = [[str(i) for i in il.get_identifiers()] for il in stmt.tokens if isinstance(il, sql.IdentifierList)]
             if wt['required'] not in lists:
                 return True
+        if wt['kind'] == 'comparison':
+            cmps = nodes_of(stmt, sql.Comparison)
+            if not any([str(c.left), str(c.right)] == wt['required'] for c in cmps):
+                return True
+        if wt['kind'] == 'where':
+            ws_ = [str(n).rstrip() for n in nodes_of(stmt, sql.Where)]
+            if wt['required'] not in ws_:
+                return True
     return False
 
 
